@@ -251,6 +251,129 @@ def pauli_gadget_structure(f):
     return res
 
 
+class _NoEval(Exception):
+    pass
+
+
+def _ev(e, d, env):
+    """integer / boolean value of an expression over `self.phase_denom` (= d) and locals in env"""
+    e = hir.strip(e)
+    k = e.get('k')
+    v = hir.lit_int(e)
+    if v is not None:
+        return v
+    b = hir.lit_bool(e)
+    if b is not None:
+        return b
+    if k == 'Field' and e['name'] == 'phase_denom':
+        return d
+    if k == 'Path':
+        l = hir.local(e)
+        if l and l[1] in env:
+            return env[l[1]]
+        raise _NoEval(hir.pp(e))
+    if k == 'Cast':
+        return _ev(e['e'], d, env)
+    if k == 'Unary' and e['op'] == 'Not':
+        return not _ev(e['e'], d, env)
+    if k == 'Binary':
+        op = e['op']
+        if op == 'And':
+            return bool(_ev(e['l'], d, env)) and bool(_ev(e['r'], d, env))
+        if op == 'Or':
+            return bool(_ev(e['l'], d, env)) or bool(_ev(e['r'], d, env))
+        a, b2 = _ev(e['l'], d, env), _ev(e['r'], d, env)
+        if op in ('Div', 'Rem') and b2 == 0:
+            raise _NoEval('division by zero')
+        if op == 'Sub' and a < b2:
+            raise _NoEval('usize underflow')
+        f = {'Add': lambda: a + b2, 'Sub': lambda: a - b2, 'Mul': lambda: a * b2, 'Div': lambda: a // b2, 'Rem': lambda: a % b2,
+             'Eq': lambda: a == b2, 'Ne': lambda: a != b2, 'Lt': lambda: a < b2, 'Le': lambda: a <= b2, 'Gt': lambda: a > b2, 'Ge': lambda: a >= b2}.get(op)
+        if f:
+            return f()
+    raise _NoEval(hir.pp(e)[:40])
+
+
+def _run_arm(stmts, d, env):
+    """straight-line `let mut p = ..; if c { p += 1 } ...; p` fragment on integers; returns the tail value"""
+    env = dict(env)
+    val = None
+    for s in stmts:
+        s0 = hir.strip(s) if s.get('k') != 'Let' else s
+        k = s0.get('k')
+        if k == 'Let' and s0['pat'].get('k') == 'Bind' and s0.get('init') is not None:
+            env[s0['pat']['id']] = _ev(s0['init'], d, env)
+        elif k == 'If' and not s0.get('else'):
+            if _ev(s0['cond'], d, env):
+                _run_arm(hir.stmts_of(s0['then']), d, env) if False else None
+                for t in hir.stmts_of(s0['then']):
+                    t0 = hir.strip(t)
+                    if t0.get('k') == 'AssignOp' and t0['op'] in ('AddAssign', 'SubAssign') and hir.local(t0['l']):
+                        inc = _ev(t0['r'], d, env)
+                        env[hir.local(t0['l'])[1]] += inc if t0['op'] == 'AddAssign' else -inc
+                    else:
+                        raise _NoEval('statement in skip branch')
+        elif k == 'AssignOp' and hir.local(s0['l']):
+            inc = _ev(s0['r'], d, env)
+            env[hir.local(s0['l'])[1]] += inc if s0['op'] == 'AddAssign' else -inc
+        else:
+            val = _ev(s0, d, env)
+    return val
+
+
+def nonclifford_phase_rule(f):
+    """for every even denominator d >= 4 the gadget numerator is drawn from [1, 2d) without d/2, d, 3d/2 (phases 1/2, 1, 3/2).
+    Decided by evaluating the guard and the draw-and-skip arm of `let phase_num = if .. {..} else {..}` on an integer interpreter for
+    every even d in 4..=64 and every value the ranged draw can return.  Returns (ok, message, stats)."""
+    target = None
+    for n in hir.nodes(f['hir']):
+        if n.get('k') == 'Let' and n['pat'].get('k') == 'Bind' and n['pat']['name'] == 'phase_num' and n.get('init') is not None:
+            target = hir.strip(n['init'])
+    if target is None or target.get('k') != 'If':
+        return None, 'the numerator is no longer chosen by `let phase_num = if <even denominator> {..} else {..}` (not-established-by-recognised-idiom)', {}
+    checked = 0
+    try:
+        for d in range(4, 65, 2):
+            arms = []
+            if _ev(target['cond'], d, {}):
+                arms = hir.stmts_of(target['then'])
+            elif target.get('else'):
+                arms = hir.stmts_of(target['else'])
+            # the draw: let [mut] p = self.rng.random_range(lo..hi)  (first statement or tail)
+            draw = None
+            for s in arms:
+                i = hir.strip(s['init']) if s.get('k') == 'Let' and s.get('init') is not None else hir.strip(s)
+                if i.get('k') == 'MethodCall' and i['name'] == 'random_range':
+                    draw = (s, i)
+                    break
+            if draw is None:
+                return None, 'no ranged draw found in the arm taken for denominator %d (not-established-by-recognised-idiom)' % d, {}
+            rb = hir.range_bounds(draw[1]['args'][0])
+            if not rb or rb[1] is None:
+                return None, 'the draw is not over an explicit range', {}
+            lo, hi = _ev(rb[0], d, {}), _ev(rb[1], d, {}) + (1 if rb[2] else 0)
+            forbidden = {d // 2, d, 3 * d // 2}
+            got = set()
+            for p0 in range(lo, hi):
+                if draw[0].get('k') == 'Let':
+                    env = {draw[0]['pat']['id']: p0}
+                    rest = arms[arms.index(draw[0]) + 1:]
+                    val = _run_arm(rest, d, env) if rest else p0
+                else:
+                    val = p0
+                got.add(val)
+                checked += 1
+            bad = sorted(got & forbidden)
+            if bad:
+                return False, ('for the even denominator %d the numerator can be %s: the gadget phase %s is a multiple of 1/2 (Clifford), '
+                               'although the generator promises non-Clifford gadgets for even denominators >= 4' % (d, bad[0], '%d/%d' % (bad[0], d))), {}
+            if not got or min(got) < 1 or max(got) >= 2 * d:
+                return False, 'for denominator %d the numerator range is [%s, %s], outside [1, 2d)' % (d, min(got) if got else '-', max(got) if got else '-'), {}
+    except _NoEval as ex:
+        return None, 'the numerator computation is not evaluable on integers (%s) (not-established-by-recognised-idiom)' % ex, {}
+    return True, '', {'denominators': '4..=64 even', 'draw_values_evaluated': checked}
+
+
 def graph_state_structure(f):
     res = []
     # num_cz incremented exactly where an H edge is added
@@ -330,6 +453,11 @@ def run(ck):
     hk = 'generate::RandomHiddenShiftCircuitBuilder::build'
     for name, ok, why in hidden_shift_structure(ck.fn(hk)):
         ck.ob('R-STRUCT', hk + '/' + name, ok, ck.site(hk), why)
+    ok, why, st = nonclifford_phase_rule(ck.fn(pk))
+    if ok is None:
+        ck.violation('R-RANGE-nonclifford', pk + '/numerator', ck.site(pk), why)
+    else:
+        ck.ob('R-RANGE-nonclifford', pk + '/numerator', ok, ck.site(pk), why, sample=st)
     for name, ok, why in pauli_gadget_structure(ck.fn(pk)):
         ck.ob('R-STRUCT', pk + '/' + name, ok, ck.site(pk), why)
     gk = 'random_graph::EquatorialStabilizerStateBuilder::build'
@@ -341,4 +469,5 @@ def run(ck):
     ck.control('R-DET flags a foreign random source', any(not ok for ok, _f, _n2, _w in r))
     ds = distinct_sites(fx['fns']['generate::RandomCircuitBuilder::build'])
     ck.control('E3-distinct refutes the `>` mutant of the index shift', any(ok is False for _n2, ok, _w in ds))
+    ck.control('R-RANGE-nonclifford refutes a guard that lets even denominators through', nonclifford_phase_rule(fx['fns']['generate::RandomPauliGadgetCircuitBuilder::build'])[0] is False)
     ck.control('R-SETTER flags a setter writing another field', setter_check(fx, None, 'generate::RandomCircuitBuilder::depth', 'depth') != [('depth', True)])
